@@ -692,6 +692,14 @@ never listed as findings), and misses found by the seeds:
   tabulated ages (C05 quick runs every age of the cheap formulas) and a mistyped *distance* cell of the 2015 table (C15's exhaustive
   row-distance fact; its first version also demanded increasing row order, which the tables do not have - corrected before it was
   ever committed as evidence).
+* Session 3, two blind spots reported by the seeding sub-agents as "already broken on the unmodified tree" (they steered their
+  demonstrations around them): (a) `check_performance_for_discipline('100', '0')` returned `'0.00'` - the C12 speed clause was
+  written as `total > 0 ⇒ …`, copying the library's own `if distance and duration` guard, so the check and the code shared the
+  exemption; the clause now demands a positive duration, the pre-fix tree is reported (replayed on 155050f), the defect is repaired
+  (210f233). (b) `wma_age_factor('m', 8, '42')` raised TypeError - below the first running row the factor of the preceding
+  weight-throw row was computed before being discarded, and that row has no factor at a child's age; C15 only used ages 23 and up.
+  A child's age is now part of the below-the-table job, the pre-fix tree is reported (replayed on 210f233), the defect is repaired
+  (7347373). Five kept seed patches touched the repaired lines and were re-created on the new HEAD (same edits; all five reported).
 * `vp check` #1: evidence committed from a partial `--only` run, and
   `distinct_nontrivial` defined so that it could be 0 → evidence is committed
   from full quick runs only; the metric counts non-syntactic obligations plus
